@@ -57,13 +57,21 @@ TRUSTED_BASE = [
     "HDF5/h5py store and return what they are given",
     "exit status of dclab-verify-dataset: the number of alerts is taken from "
     "the implementation (alerts are not modelled)",
-    "not modelled: alert/info cues, message texts, tdms/DCOR formats, basins "
-    "other than internal ones, defective-feature detection of the reader",
+    "not modelled: alert/info cues, message texts, tdms/DCOR formats and "
+    "tdms2rtdc, basins other than internal ones, basin rewriting of "
+    "rtdc_copy, defective-feature detection of the reader, a group named "
+    "mask, an empty contour group",
 ]
 ASSUMPTIONS = [
-    "set-up values are multiples of 1/64 (exact in the model)",
+    "set-up values enter the rules only through their sign (<= 0, != 0): the "
+    "abstraction rounds values that are no multiples of 1/64 away from zero "
+    "and maps NaN/+inf to a positive number",
+    "a missing image dimension is encoded as -1 (no ROI size is -1); a "
+    "non-integer index value as -1",
     "feature names avoid those the reader may declare defective (aspect, "
     "time, volume, tilt, inert_ratio_*)",
+    "derived files (export/split/join/condense) are compared without the "
+    "data dependent flags of temp and ml_score features",
     "join inputs have identical feature sets and whole-second times (the "
     "C09 join defects are not in scope here)",
 ]
@@ -144,14 +152,33 @@ def base_meta(rec):
         meta["fluorescence"] = fl
     if rec.get("poly"):
         meta["online_filter"] = {
-            "area_um,deform polygon points":
+            rec.get("polykey", "area_um,deform") + " polygon points":
                 [[0.0, 1.0], [2.0, 3.5], [4.0, 1.5], [1.0, 0.5]][:rec["poly"]]}
+    # other values and types of keys the rules look at or pass over
+    var = rec.get("metavar", 0)
+    if var == 1:
+        meta["imaging"]["frame rate"] = 3000
+        meta["imaging"]["pixel size"] = 0.34
+        meta["setup"]["channel width"] = 30
+        meta["setup"]["flow rate"] = 0.16
+        meta["setup"]["flow rate sample"] = 0.04
+        meta["setup"]["flow rate sheath"] = 0.12
+        meta["setup"]["medium"] = "water"
+        meta["online_contour"] = {"bin kernel": 5, "no absdiff": True}
+    elif var == 2:
+        meta["imaging"]["frame rate"] = "2000"
+        meta["setup"]["channel width"] = "20.0"
+        meta["experiment"]["run index"] = "3"
+        meta["setup"]["chip region"] = "reservoir"
+        meta["user"] = {"verif key": 3}
     return meta
 
 
 def gen_recipe(rng, small=False):
     n = rng.choice([1, 2, 3, 5, 8, 13] + ([] if small else [21, 40]))
     shape = [rng.randint(4, 7), rng.randint(4, 8)]
+    if shape[0] == shape[1] and rng.random() < 0.8:
+        shape[1] += 1          # mostly non-square images
     r = rng.random()
     scal = [s for s in SCALARS if rng.random() < 0.4]
     rec = dict(n=n, shape=shape, tlen=rng.choice([4, 7, 12]),
@@ -177,14 +204,21 @@ def gen_recipe(rng, small=False):
     rec["contour"] = rng.random() < 0.25
     rec["index"] = rng.random() < 0.3
     if rng.random() < 0.15:
-        rec["temp"] = rng.choice(["ok", "ok", "zero"])
+        rec["temp"] = rng.choice(["ok", "ok", "zero", "lead0"])
         if rec["temp"] == "zero" and rec["zmd"]:
             rec["temp"] = "ok"     # that would be a (correct) violation
+        if rec["temp"] == "lead0":
+            # ten leading zeros only: no violation, ZMD identifier or not
+            rec["n"] = n = max(n, 13)
+            rec["zmd"] = rng.random() < 0.7
     if rng.random() < 0.12:
         rec["ml"] = rng.sample(["ml_score_abc", "ml_score_xyz"],
                                rng.randint(1, 2))
     if rng.random() < 0.15:
         rec["poly"] = rng.choice([3, 4])
+        rec["polykey"] = rng.choice(["area_um,deform", "size_x,pos_x",
+                                     "deform,bright_avg", "fl1_max,area_um"])
+    rec["metavar"] = rng.choice([0, 0, 0, 1, 2])
     if r < 0.12:
         # feature sets whose alphabetically first member is "trace"
         rec["scalars"] = [s for s in rec["scalars"] if s > "trace"] or \
@@ -244,6 +278,8 @@ def recipe_features(rec):
     if rec["temp"]:
         feats["temp"] = np.zeros(n) if rec["temp"] == "zero" else \
             np.array([22 + rng.randint(0, 16) / 8 for _ in range(n)])
+        if rec["temp"] == "lead0":
+            feats["temp"][:10] = 0
     for m in rec["ml"]:
         feats[m] = np.array([rng.randint(0, 8) / 8 for _ in range(n)])
     return feats
@@ -279,14 +315,28 @@ def write_recipe(path, rec, pre_hook=None):
 # --------------------------------------------------------------------------
 # abstraction: raw h5py -> model record (as nested python lists)
 # --------------------------------------------------------------------------
+# IMPORTANT_KEYS followed by IMPORTANT_KEYS_FL in the order of
+# Model.C13.model_important (the position is the key id of the model; the
+# generated inventory is compared with it as a set in Proofs/C13_inventory.v)
+IMPORTANT_TABLE = [
+    ("experiment", "date"), ("experiment", "event count"),
+    ("experiment", "run index"), ("experiment", "sample"),
+    ("experiment", "time"),
+    ("imaging", "flash device"), ("imaging", "flash duration"),
+    ("imaging", "frame rate"), ("imaging", "pixel size"),
+    ("imaging", "roi position x"), ("imaging", "roi position y"),
+    ("imaging", "roi size x"), ("imaging", "roi size y"),
+    ("setup", "channel width"), ("setup", "chip region"),
+    ("setup", "flow rate"), ("setup", "medium"),
+    ("fluorescence", "bit depth"), ("fluorescence", "channel count"),
+    ("fluorescence", "channels installed"), ("fluorescence", "laser count"),
+    ("fluorescence", "lasers installed"), ("fluorescence", "sample rate"),
+    ("fluorescence", "samples per event"), ("fluorescence", "signal max"),
+    ("fluorescence", "signal min"), ("fluorescence", "trace median")]
+
+
 def important_table():
-    from dclab.rtdc_dataset import check
-    tab = []
-    for d in (check.IMPORTANT_KEYS, check.IMPORTANT_KEYS_FL):
-        for sec, keys in d.items():
-            for k in keys:
-                tab.append((sec, k))
-    return tab
+    return list(IMPORTANT_TABLE)
 
 
 SPECIAL = {"experiment:event count": 0, "imaging:roi size x": 1,
@@ -297,28 +347,74 @@ SPECIAL = {"experiment:event count": 0, "imaging:roi size x": 1,
            "fluorescence:samples per event": 9}
 SCALED = (3, 4, 5, 6)
 SECS = ["experiment", "imaging", "setup", "fluorescence"]
+RANK_WIDTH = 20
+
+
+def rank_of(name):
+    """Order isomorphic integer code of a feature name (ASCII, compared like
+    Python compares str): the same name has the same rank in every file."""
+    b = name.encode("ascii")
+    if len(b) > RANK_WIDTH or 0 in b:
+        raise ValueError("feature name %r cannot be ranked" % name)
+    return int.from_bytes(b.ljust(RANK_WIDTH, b"\0"), "big")
 
 
 def x64(v):
-    k = float(v) * 64
-    if k != int(k):
-        raise ValueError("value %r is not a multiple of 1/64" % (v,))
-    return int(k)
+    """A set-up value in 1/64; the rules only look at its sign (<= 0, != 0):
+    values that are no multiples of 1/64 are rounded away from zero, NaN and
+    +inf are mapped to a positive number, -inf to a negative one."""
+    if isinstance(v, bytes):
+        v = v.decode()
+    v = float(v)
+    if v != v or v == float("inf"):
+        return 64 * 10 ** 6
+    if v == float("-inf"):
+        return -64 * 10 ** 6
+    k = v * 64
+    if k == int(k):
+        return int(k)
+    return int(k) + (1 if k > 0 else -1)
 
 
-def has_external(grp):
+def intattr(v):
+    if isinstance(v, bytes):
+        v = v.decode()
+    return int(float(v))
+
+
+def resolvable(grp, key):
+    """None for a link whose target does not exist (never raises)."""
+    try:
+        return grp.get(key)
+    except Exception:
+        return None
+
+
+def tree_of(grp):
+    """The objects of a group as Coq term (Model.C13.h5obj); external links
+    are not followed."""
     import h5py
+    out = []
     for key in grp:
         link = grp.get(key, getlink=True)
         if isinstance(link, h5py.ExternalLink):
-            return True
-        obj = grp[key]
+            out.append("H5ExtLink")
+            continue
+        obj = resolvable(grp, key)
         if isinstance(obj, h5py.Dataset):
-            if obj.is_virtual or obj.external:
-                return True
-        elif has_external(obj):
-            return True
-    return False
+            out.append("H5Dataset %s %s" % (
+                common.blit(bool(obj.is_virtual)),
+                common.blit(bool(obj.external))))
+        elif isinstance(obj, h5py.Group):
+            out.append("H5Group %s" % tree_of(obj))
+        else:       # dangling soft link, named datatype: no data
+            out.append("H5Group []")
+    return "[" + "; ".join("(%s)" % o for o in out) + "]"
+
+
+def dims(shape, k):
+    """shape[k] or -1 for a missing dimension"""
+    return int(shape[k]) if len(shape) > k else -1
 
 
 def abstract(h5):
@@ -333,7 +429,7 @@ def abstract(h5):
     for name, pos in SPECIAL.items():
         if name in attrs:
             v = attrs[name]
-            sc[pos] = [x64(v) if pos in SCALED else int(v)]
+            sc[pos] = [x64(v) if pos in SCALED else intattr(v)]
     plain = [i for i, (sec, k) in enumerate(tab)
              if "%s:%s" % (sec, k) not in SPECIAL
              and "%s:%s" % (sec, k) in attrs]
@@ -356,26 +452,28 @@ def abstract(h5):
 
     events = h5["events"] if "events" in h5 else {}
     names = sorted(events.keys())
-    # rank: position among the names known to dclab (order isomorphic to the
-    # names; unknown members of /events are invisible to the reader)
-    rank = {nm: i for i, nm in enumerate(
-        [x for x in names if dfn.feature_exists(x)])}
+    rank = {nm: rank_of(nm) for nm in names if dfn.feature_exists(nm)}
     feats, traces, unknown, uid = [], [], [], {}
-    sc[10] = [rank.get("trace", 0)]
+    sc[10] = [rank_of("trace")]
     for nm in names:
-        obj = events[nm]
         if not dfn.feature_exists(nm):
             uid[nm] = 0 if nm == "def" else len(uid) + 1
             unknown.append(uid[nm])
             continue
+        obj = resolvable(events, nm)
+        if obj is None:
+            # a link without target is invisible to the reader
+            continue
         r = rank[nm]
         if nm == "trace":
             for t in obj:
-                traces.append([TRACES.index(t), int(obj[t].shape[0]),
-                               int(obj[t].shape[1])])
+                tr = resolvable(obj, t)
+                if tr is not None:
+                    traces.append([TRACES.index(t), int(tr.shape[0]),
+                                   dims(tr.shape, 1)])
         elif nm in IMG_KINDS:
             feats.append([r, 1, IMG_KINDS.index(nm), int(obj.shape[0]),
-                          int(obj.shape[1]), int(obj.shape[2])])
+                          dims(obj.shape, 1), dims(obj.shape, 2)])
         elif nm == "index":
             # a value that is not an integer equals no member of 1..n: -1
             feats.append([r, 2, 0, 0, 0] + [
@@ -395,7 +493,6 @@ def abstract(h5):
             feats.append([r, 5, int(obj.shape[0]), int(bad)])
         else:
             feats.append([r, 0, int(len(obj))])
-    sc[11] = [int(has_external(h5))]
     basins = []
     bfeat = {}
 
@@ -413,7 +510,7 @@ def abstract(h5):
         sc[14] = [1] + [bid(f) for f in h5["basin_events"]]
     case = dict(sc=sc, feats=feats, traces=traces, unknown=unknown,
                 plain=plain, chnames=chnames, lambdas=lambdas, powers=powers,
-                polys=polys, basins=basins)
+                polys=polys, basins=basins, tree=tree_of(h5))
     info = dict(rank=rank, uid=uid, polykeys=polykeys, bfeat=bfeat,
                 tab=tab, has_flmax=any(f[1] == 3 for f in feats))
     return case, info
@@ -424,11 +521,24 @@ def zll(ll):
 
 
 def render(c):
-    return "((%s, %s, %s, %s, %s, %s, %s, %s, %s, %s) : case)" % (
+    return "((%s, %s, %s, %s, %s, %s, %s, %s, %s, %s, %s) : case)" % (
         zll(c["sc"]), zll(c["feats"]), zll(c["traces"]),
         common.zlist(c["unknown"]), common.zlist(c["plain"]),
         common.zlist(c["chnames"]), common.zlist(c["lambdas"]),
-        zll(c["powers"]), zll(c["polys"]), zll(c["basins"]))
+        zll(c["powers"]), zll(c["polys"]), zll(c["basins"]),
+        c.get("tree", "[]"))
+
+
+def flat_of(c, extlink=None):
+    """The abstraction in the layout of Model.C13.file_flat."""
+    sc = [list(x) for x in c["sc"]]
+    if extlink is None:
+        extlink = "H5ExtLink" in c["tree"] or "true" in c["tree"]
+    sc[11] = [int(extlink)]
+    return [sc, [list(f) for f in c["feats"]], [list(t) for t in c["traces"]],
+            [list(c["unknown"])], [list(c["plain"])], [list(c["chnames"])],
+            [list(c["lambdas"])], [list(p) for p in c["powers"]],
+            [list(p) for p in c["polys"]], [list(b) for b in c["basins"]]]
 
 
 HEADER = ("From Coq Require Import ZArith List.\nImport ListNotations.\n"
@@ -436,51 +546,71 @@ HEADER = ("From Coq Require Import ZArith List.\nImport ListNotations.\n"
 
 
 # --------------------------------------------------------------------------
-# implementation: cues -> integer triples
+# implementation: cues -> integer triples.  A cue is identified by the check
+# method that raised it, its cfg_section/cfg_key and the feature, trace or
+# key names that occur in its message - not by the wording of the message.
 # --------------------------------------------------------------------------
-def cue_id(cue, info):
-    cat, sec, key, msg = cue.category, cue.cfg_section, cue.cfg_key, cue.msg
+def _mentions(msg, name):
+    return re.search(r"(?<![\w/])%s(?![\w])" % re.escape(name), msg) is not None
+
+
+def cue_id(method, cue, info):
+    sec, key, msg = cue.cfg_section, cue.cfg_key, cue.msg
     tab = info["tab"]
     try:
-        if cat == "basin data":
-            if "basin group" in msg:
-                return [1, 0, 0]
-            m = re.search(r"basin feature (\S+)$", msg)
-            return [1, 1, info["bfeat"][m.group(1)]]
-        if cat == "format HDF5":
+        if method == "check_basin_features_internal":
+            hit = [nm for nm in info["bfeat"] if _mentions(msg, nm)]
+            return [1, 1, info["bfeat"][hit[0]]] if hit else [1, 0, 0]
+        if method == "check_external_links":
             return [2, 0, 0]
-        if cat == "feature data":
-            if msg == "The index feature is not enumerated correctly":
-                return [3, 0, 0]
-            if "'temp' feature is all-zero" in msg:
-                return [3, 2, 0]
+        if method == "check_feat_index":
+            return [3, 0, 0]
+        if method == "check_ml_class":
             return [3, 1, 0]
-        if cat == "feature size":
-            m = re.search(r"'(trace/)?([^']+)'", msg)
-            if m.group(1):
-                return [4, 1, TRACES.index(m.group(2))]
-            return [4, 0, info["rank"][m.group(2)]]
-        if cat == "feature unknown":
-            m = re.search(r"Unknown key '([^']+)'", msg)
-            return [5, info["uid"][m.group(1)], 0]
-        if cat == "metadata wrong":
-            if sec == "online_filter":
-                return [6, 100, info["polykeys"].index("online_filter:" + key)]
-            k = tab.index((sec, key))
-            if key == "samples per event":
-                m = re.search(r"event: (\w+) \(", msg)
-                return [6, k, TRACES.index(m.group(1))]
-            if key.startswith("roi size"):
-                m = re.search(r"and feature (\w+) ", msg)
-                return [6, k, IMG_KINDS.index(m.group(1))]
-            return [6, k, 0]
-        if cat == "metadata missing":
+        if method == "check_temperature_zero_zmd":
+            return [3, 2, 0]
+        if method == "check_feature_size":
+            hit = [t for t in TRACES if ("trace/" + t) in msg]
+            if hit:
+                return [4, 1, TRACES.index(max(hit, key=len))]
+            hit = [nm for nm in info["rank"] if _mentions(msg, nm)]
+            return [4, 0, info["rank"][max(hit, key=len)]]
+        if method == "check_features_unknown_hdf5":
+            hit = [nm for nm in info["uid"] if _mentions(msg, nm)]
+            return [5, info["uid"][max(hit, key=len)], 0]
+        if method == "check_metadata_missing":
             if key is None:
                 return [8, SECS.index(sec), 0]
             return [7, tab.index((sec, key)), 0]
+        if method == "check_metadata_online_filter_polygon_points_shape":
+            return [6, 100, info["polykeys"].index("online_filter:" + key)]
+        if method in ("check_fl_num_channels", "check_fl_num_lasers",
+                      "check_metadata_bad_greater_zero"):
+            return [6, tab.index((sec, key)), 0]
+        if method == "check_fl_samples_per_event":
+            hit = [t for t in TRACES if _mentions(msg, t)]
+            return [6, tab.index((sec, key)), TRACES.index(hit[0])]
+        if method == "check_metadata_bad":
+            hit = [k for k in IMG_KINDS if _mentions(msg, k)]
+            return [6, tab.index((sec, key)), IMG_KINDS.index(hit[0])]
     except Exception:
         pass
     return [99, 0, 0]
+
+
+def cues_by_method(ic):
+    """The dispatch of IntegrityChecker.check, keeping the method names."""
+    from dclab.rtdc_dataset.check import IntegrityChecker
+    out = []
+    funcs = IntegrityChecker.__dict__
+    for ff in sorted(funcs.keys()):
+        if not ff.startswith("check_") or not callable(funcs[ff]):
+            continue
+        if ff.startswith("check_fl_") and not ic.has_fluorescence:
+            continue
+        for cue in funcs[ff](ic, expand_section=False):
+            out.append((ff, cue))
+    return out
 
 
 def run_impl(path):
@@ -494,11 +624,16 @@ def run_impl(path):
     try:
         with IntegrityChecker(path) as ic:
             cues = ic.check(expand_section=False)
-        ids = sorted(cue_id(c, info) for c in cues if c.level == "violation")
+        with IntegrityChecker(path) as ic:
+            tagged = cues_by_method(ic)
+        ids = sorted(cue_id(m, c, info) for m, c in tagged
+                     if c.level == "violation")
         msgs = sorted(c.msg for c in cues if c.level == "violation")
         viol, aler, _ = check_dataset(path)
-        if list(viol) != msgs:
-            ids.append([98, 0, 0])    # check_dataset disagrees with check()
+        if list(viol) != msgs or msgs != sorted(
+                c.msg for m, c in tagged if c.level == "violation"):
+            # check_dataset, check() and the method-wise run disagree
+            ids.append([98, 0, 0])
         info["nalert"] = len(aler)
     except BaseException as e:   # OldFormatNotSupportedError is one
         if isinstance(e, (KeyboardInterrupt, SystemExit)):
@@ -595,6 +730,9 @@ def corruption_menu(h5, info):
         elif nm == "contour":
             if n > 1:
                 menu.append(("contour_drop", {}))
+            if n > 2:
+                menu.append(("contour_drop", dict(mode="interior")))
+            menu.append(("contour_extra", {}))
         elif nm == "index":
             menu += [("index_len", dict(k=k)) for k in lens]
             menu.append(("index_values", dict(mode="shift")))
@@ -676,6 +814,24 @@ def corruption_menu(h5, info):
                     # same number of names, other channel
                     menu.append(("chname_move", dict(i=i, j=j)))
     menu += [("extlink", dict(where=w)) for w in ("events", "logs", "root")]
+    # external data of the other kinds: links without target, a link inside
+    # events/trace, a virtual dataset, external raw storage
+    menu += [("extlink_dangling", dict(where=w))
+             for w in ("events", "logs", "root", "trace", "unknown")]
+    menu += [("extlink_nested", {}), ("virtual", {}), ("extstorage", {})]
+    for k in IMG_KINDS:
+        if k in ev:
+            menu += [("img_rank", dict(f=k, rank=r)) for r in (2, 4)]
+    menu.append(("all_empty", {}))
+    menu.append(("imaging_unknown_key", {}))
+    menu += [("retype", dict(key=k, typ=t)) for k, t in (
+        ("imaging:frame rate", "str"), ("experiment:event count", "float"),
+        ("fluorescence:channel count", "str"), ("imaging:roi size x", "int16"),
+        ("setup:flow rate", "float32"), ("fluorescence:laser count", "float"))
+        if k in at]
+    menu += [("setup_special", dict(sec=s_, key=k_, v=v))
+             for s_, k_ in (("imaging", "pixel size"), ("setup", "flow rate"))
+             for v in ("nan", "inf", "tiny")]
     menu += [("nonpos", dict(sec=s, key=k, v=v))
              for s, k in (("imaging", "frame rate"), ("imaging", "pixel size"),
                           ("setup", "channel width"), ("setup", "flow rate"))
@@ -685,6 +841,8 @@ def corruption_menu(h5, info):
     for m in ev:
         if m.startswith("ml_score_"):
             menu += [("ml_bad", dict(f=m, v=v)) for v in (2.0, -0.5)]
+    if n > 10:
+        menu.append(("temp_lead_zero", {}))
     if "temp" in ev:
         menu.append(("temp_zero", dict(zmd=True)))
         menu.append(("temp_zero", dict(zmd=False)))
@@ -725,8 +883,124 @@ def _apply_corruption(h5, kind, p, info, scratch):
         return [[4, 1, TRACES.index(p["t"])]] if n is not None else []
     if kind == "contour_drop":
         keys = sorted(ev["contour"].keys(), key=int)
-        del ev["contour"][keys[-1]]
+        if len(keys) < 2:
+            return []
+        # the last one, or one in the middle (the highest key stays)
+        del ev["contour"][keys[-1] if p.get("mode") != "interior"
+                          else keys[len(keys) // 2]]
         return [[4, 0, ("rank", "contour")]] if n is not None else []
+    if kind == "contour_extra":
+        keys = sorted(ev["contour"].keys(), key=int)
+        new = str(int(keys[-1]) + 1) if keys else "0"
+        ev["contour"].create_dataset(new, data=np.array(
+            [[0, 0], [2, 0], [2, 2]], dtype=np.int32))
+        return [[4, 0, ("rank", "contour")]] if n is not None else []
+    if kind == "extlink_dangling":
+        nowhere = os.path.join(scratch, "no-such-file-%s.h5" % p["where"])
+        if p["where"] == "trace" and "trace" not in ev:
+            return []
+        grp, name = {
+            "events": (ev, "userdef7"), "unknown": (ev, "nowhere"),
+            "logs": (h5.require_group("logs"), "danglog"),
+            "root": (h5, "dangling"),
+            "trace": (ev.get("trace"), "fl3_median")}[p["where"]]
+        if name in grp:
+            return []
+        grp[name] = h5py.ExternalLink(nowhere, "x")
+        out = [[2, 0, 0]]
+        if p["where"] == "unknown":
+            out.append(("anycat", 5))
+        return out
+    if kind == "extlink_nested":
+        if "trace" not in ev or "fl3_raw" in ev["trace"]:
+            return []
+        first = list(ev["trace"])[0]
+        ext = os.path.join(scratch, "extn-%s.h5" % os.path.basename(
+            h5.filename))
+        with h5py.File(ext, "w") as e:
+            e["x"] = ev["trace"][first][:]
+        ev["trace"]["fl3_raw"] = h5py.ExternalLink(ext, "x")
+        return [[2, 0, 0]]
+    if kind == "virtual":
+        if "userdef6" in ev:
+            return []
+        src = [nm for nm in ev if isinstance(ev[nm], h5py.Dataset)
+               and ev[nm].ndim == 1 and not ev[nm].is_virtual]
+        if not src:
+            return []
+        layout = h5py.VirtualLayout(shape=ev[src[0]].shape, dtype="f8")
+        layout[:] = h5py.VirtualSource(ev[src[0]])
+        ev.create_virtual_dataset("userdef6", layout)
+        return [[2, 0, 0]]
+    if kind == "extstorage":
+        if "userdef5" in ev:
+            return []
+        nn = int(n) if n is not None else 3
+        raw = os.path.join(scratch, "raw-%s.bin" % os.path.basename(
+            h5.filename))
+        with open(raw, "wb") as fd:
+            fd.write(np.arange(max(nn, 1), dtype="f8").tobytes())
+        ev.create_dataset("userdef5", shape=(nn,), dtype="f8",
+                          external=[(raw, 0, 8 * max(nn, 1))])
+        return [[2, 0, 0]]
+    if kind == "img_rank":
+        d = ev[p["f"]][:]
+        if d.ndim != 3:
+            return []
+        d = d[:, :, 0] if p["rank"] == 2 else np.stack([d, d], axis=-1)
+        _replace(ev, p["f"], d)
+        if p["rank"] == 2 and "imaging:roi size x" in at \
+                and "imaging:roi size y" in at:
+            return [[6, tab.index(("imaging", "roi size x")),
+                     IMG_KINDS.index(p["f"])]]
+        return []
+    if kind == "all_empty":
+        # no event count and only empty features: the length is undefined
+        if "experiment:event count" in at:
+            del at["experiment:event count"]
+        for nm in list(ev):
+            obj = ev.get(nm)
+            if isinstance(obj, h5py.Group) or obj is None:
+                del ev[nm]
+            else:
+                _replace(ev, nm, obj[:0])
+        if len(ev) == 0:
+            ev.create_dataset("deform", data=np.zeros(0))
+        return [("missing", 1)]
+    if kind == "imaging_unknown_key":
+        # a key of [imaging] that dclab does not know
+        at["imaging:exposure time"] = 20.0
+        return []
+    if kind == "retype":
+        if p["key"] == "experiment:event count" and "contour" in ev:
+            # the reader hands the raw attribute to the contour wrapper: a
+            # float-typed count makes it raise (type normalisation: C11)
+            return []
+        v = at[p["key"]]
+        if isinstance(v, (bytes, str, np.ndarray)):
+            return []
+        at[p["key"]] = {"str": lambda x: str(x),
+                        "float": lambda x: np.float64(x),
+                        "float32": lambda x: np.float32(x),
+                        "int16": lambda x: np.int16(x)}[p["typ"]](v)
+        return []
+    if kind == "setup_special":
+        at["%s:%s" % (p["sec"], p["key"])] = {
+            "nan": np.nan, "inf": np.inf, "tiny": 1e-300}[p["v"]]
+        # a positive / undefined value is not "non-positive"
+        return [("absent", [6, tab.index((p["sec"], p["key"])), 0])]
+    if kind == "temp_lead_zero":
+        nn = int(n) if n is not None else 13
+        if nn <= 10:
+            return []
+        v = np.concatenate([np.zeros(10), 22 + np.arange(nn - 10) / 8])
+        if "temp" in ev:
+            _replace(ev, "temp", v)
+        else:
+            ev.create_dataset("temp", data=v)
+        at["setup:identifier"] = "ZMDD-x2"
+        # ten leading zeros are not an all-zero temperature
+        return [("absent", [3, 2, 0])]
     if kind == "index_len":
         _replace(ev, "index", _resize(ev["index"][:], p["k"]))
         return [[4, 0, ("rank", "index")], [3, 0, 0]] if n is not None else []
@@ -990,6 +1264,8 @@ def expectation_met(exp, ids, info, has_flmax):
             return any(i[0] == exp[1] for i in ids), None
         if tag == "anycatkey":
             return any(i[0] == exp[1] and i[1] == exp[2] for i in ids), None
+        if tag == "absent":
+            return list(exp[1]) not in ids, None
         if tag == "missing":
             k = exp[1]
             sec = SECS.index(info["tab"][k][0])
@@ -1000,7 +1276,7 @@ def expectation_met(exp, ids, info, has_flmax):
             return False, (None if has_flmax else FINDING_FL)
     exp = list(exp)
     if isinstance(exp[2], tuple):
-        exp[2] = info["rank"][exp[2][1]]
+        exp[2] = rank_of(exp[2][1])
     return exp in ids, None
 
 
@@ -1019,6 +1295,33 @@ def make_path_file(case, d):
     extra = dict(pre=pre, src=src)
     if kind == "writer":
         return src, extra
+    import h5py
+    with h5py.File(src, "r") as h5:
+        src_abs = abstract(h5)[0]
+        src_names = [nm for nm in h5["events"]]
+
+    def derive(outpath, merged_n=None):
+        """parameters of Model.derive_model for the file that was produced"""
+        with h5py.File(outpath, "r") as h5:
+            o_abs = abstract(h5)[0]
+        src_ranks = set(f[0] for f in src_abs["feats"])
+        keep = [f[0] for f in o_abs["feats"] if f[0] in src_ranks]
+        new = [f for f in o_abs["feats"] if f[0] not in src_ranks]
+        n = o_abs["sc"][0][0] if o_abs["sc"][0] else 0
+        return dict(src=src_abs, keep=keep, keep_trace=bool(o_abs["traces"]),
+                    extra=new, n=n)
+    if kind == "append":
+        # a second writer session adds the remaining events and a feature
+        from dclab.rtdc_dataset.writer import RTDCWriter
+        import numpy as np
+        rec1 = dict(rec, n=case["n1"])
+        write_recipe(out, rec1)
+        feats = recipe_features(rec)
+        with RTDCWriter(out, mode="append") as hw:
+            for feat, data in feats.items():
+                hw.store_feature(feat, fslice(data, case["n1"], rec["n"]))
+            hw.store_feature("userdef0", np.arange(rec["n"]) / 8)
+        return out, extra
     if kind == "export":
         with dclab.new_dataset(src) as ds:
             feats = list(ds.features_innate)
@@ -1034,8 +1337,16 @@ def make_path_file(case, d):
                 ds.filter.manual[0] = True
                 ds.apply_filter()
             ds.export.hdf5(out, features=keep, filtered=bool(case.get("drop")),
-                           override=True)
+                           basins=bool(case.get("basins")), override=True)
             extra["kept"] = keep
+        extra["derive"] = derive(out)
+        # what was asked for is what is stored
+        got = set(extra["derive"]["keep"]) | set(
+            f[0] for f in extra["derive"]["extra"])
+        want = set(rank_of(k) for k in keep if k != "trace")
+        if got != want or extra["derive"]["keep_trace"] != (
+                "trace" in keep and "trace" in src_names):
+            raise ValueError("export stored other features than requested")
         return out, extra
     with _quiet():
         if kind == "compress":
@@ -1048,8 +1359,10 @@ def make_path_file(case, d):
         elif kind == "split":
             paths = cli.split(path_in=src, path_out=d,
                               split_events=case["split_events"],
-                              skip_initial_empty_image=False,
-                              skip_final_empty_image=False,
+                              skip_initial_empty_image=bool(
+                                  case.get("skip_empty")),
+                              skip_final_empty_image=bool(
+                                  case.get("skip_empty")),
                               ret_out_paths=True)
             extra["all"] = [str(p) for p in paths]
             out = str(paths[case["pick"] % len(paths)])
@@ -1061,6 +1374,8 @@ def make_path_file(case, d):
             cli.join(paths_in=[src, src2], path_out=out)
         else:
             raise ValueError(kind)
+    if kind in ("split", "join", "condense"):
+        extra["derive"] = derive(out)
     return out, extra
 
 
@@ -1068,7 +1383,7 @@ def gen_case(rng, k):
     rec = gen_recipe(rng)
     if rng.random() < 0.3:
         rec["cut"] = rng.randint(1, max(1, rec["n"] - 1))
-    kinds = ["writer", "writer", "writer", "export", "export", "compress",
+    kinds = ["writer", "writer", "append", "export", "export", "compress",
              "repack", "condense", "split", "join"]
     case = dict(recipe=rec, path=kinds[k % len(kinds)] if k < 40
                 else rng.choice(kinds), corruptions=[],
@@ -1081,6 +1396,15 @@ def gen_case(rng, k):
                                       for _ in range(rng.randint(1, 3))))
     if case["path"] == "repack":
         case["strip_logs"] = rng.random() < 0.5
+    if case["path"] == "append":
+        if rec["n"] < 2:
+            rec["n"] = 2
+        case["n1"] = rng.randint(1, rec["n"] - 1)
+        rec.pop("cut", None)
+    if case["path"] == "export":
+        case["basins"] = rng.random() < 0.3
+    if case["path"] == "split":
+        case["skip_empty"] = rng.random() < 0.5
     if case["path"] == "split":
         case["split_events"] = rng.randint(1, max(1, rec["n"]))
         case["pick"] = rng.randint(0, 5)
@@ -1141,10 +1465,18 @@ def eval_case(args):
 
             def o(x):
                 return [1, x[0]] if x else [0, 0]
-            rec["writer"] = dict(
-                abs=render(extra["pre"]),
-                impl=[1] + o(sc[0]) + o(sc[9]) + o(sc[7]) + o(sc[1])
-                + o(sc[2]), ids=ids)
+            rec["writer"] = dict(abs=render(extra["pre"]),
+                                 impl=flat_of(cabs))
+        if extra.get("derive"):
+            # export / split / join / condense: the file as predicted by
+            # Model.derive_model from the abstraction of the source
+            dv = extra["derive"]
+            rec["tie"] = dict(
+                fn="run_derive_flat", what="derive:" + case["path"],
+                arg="(%s, %s, %s)" % (render(dv["src"]), zll(
+                    [dv["keep"], [int(dv["keep_trace"])], [dv["n"]]]),
+                    zll(dv["extra"])),
+                impl=flat_of(cabs))
         recs.append(rec)
         # --- corruptions: second sentence
         ncorr = case.get("ncorr", 0)
@@ -1245,35 +1577,35 @@ def eval_case(args):
                     continue
                 with h5py.File(cur, "r") as h5:
                     a0 = abstract(h5)[0]
-                idsc, _, a1, _ = run_impl(cp)
-                preserved = render(a0) == render(a1)
+                idsc, _, a1, infoc = run_impl(cp)
+                preserved = flat_of(a0) == flat_of(a1)
                 r = dict(kind="copy", tool=tool, fails=[],
-                         preserved=preserved,
+                         preserved=preserved, abs=render(a1), ids=idsc,
+                         exit=infoc["exit"], nalert=infoc["nalert"],
                          case=dict(recs[-1]["case"], copy=tool))
-                # the tools write through RTDCWriter: the copy is the
-                # original with the metadata completion applied and external
-                # data copied in (model: rectify)
-                a0x = dict(a0, sc=list(a0["sc"]), unknown=[])
-                a0x["sc"][11] = [0]
-                r["rectifies"] = (tool == "compress")
-                sc = a1["sc"]
-
-                def o(x):
-                    return [1, x[0]] if x else [0, 0]
-                r["writer"] = dict(
-                    abs=render(a0x),
-                    impl=[1] + o(sc[0]) + o(sc[9]) + o(sc[7]) + o(sc[1])
-                    + o(sc[2]), ids=idsc)
-                if a0["basins"] or a0["sc"][14] or any(
-                        (ft[1] == 0 and ft[2] == 0) or
-                        (ft[1] in (3, 4, 5) and ft[2] == 0) or
-                        (ft[1] == 1 and ft[3] == 0) or
-                        (ft[1] == 2 and len(ft) == 5)
-                        for ft in a0["feats"]) or any(
-                        t[1] == 0 for t in a0["traces"]):
-                    # rtdc_copy rewrites basins and leaves out empty
-                    # datasets: not part of the copy model
-                    del r["writer"]
+                # the copy as predicted by Model.copy_model / compress_model
+                # from the abstraction of the original
+                r["tie"] = dict(fn="run_copy_flat", what="dclab-" + tool,
+                                arg="(%s, %d)" % (
+                                    render(a0), 1 if tool == "compress" else 0),
+                                impl=flat_of(a1))
+                ext0 = flat_of(a0)[0][11] == [1]
+                empty0 = any(
+                    (ft[1] in (0, 3, 4, 5, 6) and ft[2] == 0)
+                    or (ft[1] == 1 and ft[3] == 0)
+                    or (ft[1] == 2 and len(ft) == 5) for ft in a0["feats"])
+                if a0["basins"] or a0["sc"][14] or (ext0 and empty0):
+                    # an empty virtual dataset stays virtual in the copy
+                    # rtdc_copy rewrites / filters basin definitions (C08):
+                    # not part of the copy model
+                    del r["tie"]
+                clean_input = not recs[-1]["case"].get("corruptions")
+                if clean_input and not preserved:
+                    r["fails"].append(dict(
+                        desc="dclab-%s of a file written by dclab changes "
+                             "content the checker looks at: %s -> %s" %
+                             (tool, flat_of(a0), flat_of(a1)), finding=None,
+                        tag="copy"))
                 if preserved and va != vb:
                     r["fails"].append(dict(
                         desc="violations differ after dclab-%s although the "
@@ -1305,8 +1637,20 @@ def _object_of(c):
     if kind in ("index_len", "index_values", "index_add", "index_interior",
                 "index_dtype"):
         return "feat:index"
-    if kind == "contour_drop":
+    if kind in ("contour_drop", "contour_extra"):
         return "feat:contour"
+    if kind == "img_rank":
+        return "feat:" + p["f"]
+    if kind == "temp_lead_zero":
+        return "feat:temp"
+    if kind == "retype":
+        return "key:" + p["key"]
+    if kind == "setup_special":
+        return "key:%s:%s" % (p["sec"], p["key"])
+    if kind == "extlink_dangling":
+        return "extlink"
+    if kind == "all_empty":
+        return "key:experiment:event count"
     if kind in ("del_key",):
         return "key:%s:%s" % (p["sec"], p["key"])
     if kind == "del_section":
@@ -1356,6 +1700,10 @@ def independent(c, later):
                 return False
         if other[0] == "del_section" and a.startswith(
                 "key:%s:" % other[1]["sec"]):
+            return False
+        # every feature is emptied, groups and links in /events are removed
+        if other[0] == "all_empty" and (
+                not a.startswith("key:") or a.startswith("key:fluorescence")):
             return False
         if other[0] == "del_key" and a.startswith("key:") and \
                 a == "key:%s:%s" % (other[1]["sec"], other[1]["key"]):
@@ -1441,9 +1789,9 @@ def run(run):
     t0 = time.time()
     records = evaluate(cases, run.scratch) if cases else []
     # quick tier: batches of generated cases (always the same sequence for a
-    # seed) until 28 s are used, between 60 and 260 cases; thorough: 1400
+    # seed) until 22 s are used, between 30 and 260 cases; thorough: 1000
     total, k = 0, 0
-    target = 1400 if run.thorough else 260
+    target = 1000 if run.thorough else 260
     while total < target:
         batch = []
         for _ in range(200 if run.thorough else 30):
@@ -1451,7 +1799,7 @@ def run(run):
             k += 1
         records += evaluate(batch, run.scratch)
         total += len(batch)
-        if not run.thorough and total >= 60 and time.time() - t0 > 28:
+        if not run.thorough and total >= 30 and time.time() - t0 > 22:
             break
     t1 = time.time()
     feed(run, records)
@@ -1462,6 +1810,7 @@ def run(run):
 def feed(run, records):
     corr = []       # (case, rendered abstraction, impl ids)
     writers = []
+    ties = []       # (case, dict(fn, arg, impl, what))
     for r in records:
         kind = r["kind"]
         run.count("record:" + kind)
@@ -1493,13 +1842,10 @@ def feed(run, records):
             run.record_case(r["case"], True, sample=False)
             run.count("copy:%s:%s" % (r["tool"], "preserved" if r["preserved"]
                                       else "repaired-by-writer"))
-            if "writer" not in r:
-                run.count("copy:not-modelled")
-            elif r["rectifies"]:
-                writers.append((r["case"], r["writer"]))
-            else:
-                corr.append((r["case"], r["writer"]["abs"],
-                             r["writer"]["ids"], None, 0))
+            corr.append((r["case"], r["abs"], r["ids"], r["exit"],
+                         r["nalert"]))
+            if "tie" in r:
+                ties.append((r["case"], r["tie"]))
             continue
         run.record_case(r["case"], r["nontrivial"])
         run.count("path:" + r["path_kind"])
@@ -1511,6 +1857,8 @@ def feed(run, records):
             run.count("ncorr=%d" % len(r["case"]["corruptions"]))
         corr.append((r["case"], r["abs"], r["ids"], r["exit"], r["nalert"]))
         run.count("exit-status:%d" % r["exit"])
+        if "tie" in r:
+            ties.append((r["case"], r["tie"]))
         if "writer" in r:
             writers.append((r["case"], r["writer"]))
     model = common.coq_map(run.scratch, "c13", HEADER, "run_flat_x",
@@ -1522,19 +1870,31 @@ def feed(run, records):
         elif ex is not None and m[0][0] != ex:
             run.mismatch(dict(case, what="exit status"), m[0][0], ex,
                          what="exit-status")
-    if writers:
-        wm = common.coq_map(run.scratch, "c13w", HEADER, "run_writer_flat",
-                            [w[1]["abs"] for w in writers], shard=80)
-        for (case, w), m in zip(writers, wm):
+    for case, w in writers:
+        ties.append((case, dict(fn="run_rectify_flat", what="rectify_metadata",
+                                arg=w["abs"], impl=w["impl"])))
+    for fn in sorted(set(t[1]["fn"] for t in ties)):
+        sel = [t for t in ties if t[1]["fn"] == fn]
+        out = common.coq_map(run.scratch, "c13" + fn[4:8], HEADER, fn,
+                             [t[1]["arg"] for t in sel], shard=60)
+        for (case, t), m in zip(sel, out):
             run.corr_checked += 1
-            run.count("writer-rectify")
-            if m[0] != m[1]:
-                run.count("writer-rectify:trace-first")
-            impl = [w["impl"]] + sorted(w["ids"])
-            mod = [m[1]] + sorted(m[2:])
-            if mod != impl:
-                run.mismatch(dict(case, what="rectify_metadata"), mod, impl,
-                             what="writer")
+            run.count("tie:" + t["what"])
+            if norm_flat(m) != norm_flat(t["impl"]):
+                run.mismatch(dict(case, what=t["what"]), m, t["impl"],
+                             what=t["what"])
+
+
+def norm_flat(flat):
+    """Derived files are compared without the data dependent flags of temp
+    and ml_score features (a subset of the events may be all zero)."""
+    if not flat:
+        return flat
+    out = [x for x in flat]
+    out[1] = sorted([(f[:3] + [0] if f[1] in (4, 5) else list(f))
+                     for f in flat[1]])
+    out[2] = sorted(list(t) for t in flat[2])
+    return out
 
 
 # --------------------------------------------------------------------------
